@@ -78,9 +78,12 @@ class Converter:
         k = t[0]
         if k == "publish" and t[3] == "event":
             return "Publish %s" % self.event_term(t[4], t[5])[0]
-        if k == "ack" and str(t[2]).startswith("asl_workflow_events"):
+        if k in ("ack", "ack_collateral") and str(t[2]).startswith("asl_workflow_events"):
             m = mid(t[3])
             return None if m is None else "Ack %d" % m
+        if k == "ack_again" and str(t[1]).startswith("asl_workflow_events"):
+            m = mid(t[2])
+            return None if m is None else "Ack %d" % m          # a second acknowledgement of the same delivery
         if k == "broadcast":
             d = t[3]["detail"]
             return "Notify %d %s" % (self.x(d["executionArn"]), {"RUNNING": "Running", "SUCCEEDED": "Succeeded", "FAILED": "Failed"}[d["status"]])
